@@ -25,6 +25,13 @@ for root, _, files in os.walk(src):
         ref = {q: b for q, b in allref.items() if b}
         n += sum(len(b) for b in ref.values())
         ref["__functions__"] = sorted(allref)
+        from bacverif import normalize
+        comps = {}
+        for q, fn in alpha.functions_with_qualnames(tree):
+            sg = normalize.comprehension_signatures(fn)
+            if sg:
+                comps[q] = sg
+        ref["__comprehensions__"] = comps
         out[rel] = ref
 json.dump(out, open(os.path.join(ROOT, "spec", "local_names.json"), "w"), indent=0, sort_keys=True)
 print("reference of %d locals in %d modules written" % (n, len(out)))
